@@ -391,6 +391,27 @@ pub fn run(rep: &mut Report) {
         sweep(rep, "c01.scan_scale", 3 * ns, |i, out| {
             judge_scale((i % 3) as usize, scan_dur(i / 3, 3), scan_i64(i / 3, 4), out);
         });
+        // one century, one day and 1 ns times / divided into every i16 count: results on every whole century of the range
+        sweep(rep, "c01.every_century", 65_537 * 6, |i, out| {
+            let k = (i / 6) as i64 - 32_768;
+            match i % 6 {
+                0 => judge_scale(0, NPC, k, out),
+                1 => judge_scale(1, NPC, k, out),
+                2 => judge_scale(0, NS_DAY, k * 36_525, out),
+                3 => judge_scale(2, (k as i128 * NPC).clamp(DMIN, DMAX), 1, out),
+                4 => judge_bin(0, (k as i128 * NPC - 1).clamp(DMIN, DMAX), 1, out),
+                _ => judge_bin(1, (k as i128 * NPC).clamp(DMIN, DMAX), -NPC, out),
+            };
+        });
+        // one unit short of (and past) every century anchor: the carry of the Unit operand forms lands exactly on a century
+        sweep(rep, "c01.unit_to_century", 4 * 9 * 23 * 5, |i, out| {
+            let u = UNITS[((i / 4) % 9) as usize];
+            let c = lattice::CENTURY_ANCHORS[((i / 36) % 23) as usize];
+            let a = c * NPC + [-1i128, 1, -2, 2, 0][(i / (36 * 23)) as usize] * lattice::UNIT_NS[((i / 4) % 9) as usize];
+            if (DMIN..=DMAX).contains(&a) {
+                judge_unit((i % 4) as usize, a, u, out)
+            }
+        });
         sweep(rep, "c01.scan_unit", 4 * 9 * (ns / 8), |i, out| judge_unit((i % 4) as usize, scan_dur(i / 36, 5), UNITS[((i / 4) % 9) as usize], out));
     }
     let depth = if deep { 5 } else { 4 };
